@@ -25,6 +25,8 @@ def main(tier, seed):
         rnd = random.Random(seed)
         cases = rnd.sample(cases, 9000)
     cases += nameres_cases(run, "flaws", "C08-flaws", [])
+    # imports of the enclosing module do not reach into a nested module (6 families x 3 sites x 9 names x 11 parent imports)
+    cases += nameres_cases(run, "inherit", "C08-inherit", [])
     path = os.path.join(d, "cases.ndjson")
     with open(path, "w") as f:
         for c in cases:
